@@ -860,6 +860,8 @@ SA = 'xdoctest/static_analysis.py'
 CO = 'xdoctest/core.py'
 PA = 'xdoctest/parser.py'
 VARIANTS = [
+    silent('slicer-lifted-out-with-a-tuple-of-its-captures', ('xdoctest/parser.py', '        def slice_example(s1, s2, want_lines=None):\n            exec_lines = exec_source_lines[s1:s2]\n            orig_lines = source_lines[s1:s2]\n            directives = ps1_to_directive.get(s1, None)\n            example = doctest_part.DoctestPart(exec_lines,\n                                               want_lines=want_lines,\n                                               orig_lines=orig_lines,\n                                               line_offset=lineno + s1,\n                                               directives=directives)\n            return example\n', '        chunk = (exec_source_lines, source_lines, ps1_to_directive, lineno)\n'), ('xdoctest/parser.py', 'class DoctestParser:\n', 'def _slice_example(chunk, s1, s2, want_lines=None):\n    exec_source_lines, source_lines, ps1_to_directive, lineno = chunk\n    exec_lines = exec_source_lines[s1:s2]\n    orig_lines = source_lines[s1:s2]\n    directives = ps1_to_directive.get(s1, None)\n    example = doctest_part.DoctestPart(exec_lines,\n                                       want_lines=want_lines,\n                                       orig_lines=orig_lines,\n                                       line_offset=lineno + s1,\n                                       directives=directives)\n    return example\n\n\nclass DoctestParser:\n'), ('xdoctest/parser.py', 'example = slice_example(s1, s2)\n', 'example = _slice_example(chunk, s1, s2)\n', 3), ('xdoctest/parser.py', 'example = slice_example(s1, s2, want_lines)\n', 'example = _slice_example(chunk, s1, s2, want_lines)\n')),
+    fire('slicer-lifted-out-with-a-shifted-offset', 'C08.R1', ('xdoctest/parser.py', '        def slice_example(s1, s2, want_lines=None):\n            exec_lines = exec_source_lines[s1:s2]\n            orig_lines = source_lines[s1:s2]\n            directives = ps1_to_directive.get(s1, None)\n            example = doctest_part.DoctestPart(exec_lines,\n                                               want_lines=want_lines,\n                                               orig_lines=orig_lines,\n                                               line_offset=lineno + s1,\n                                               directives=directives)\n            return example\n', '        chunk = (exec_source_lines, source_lines, ps1_to_directive, lineno)\n'), ('xdoctest/parser.py', 'class DoctestParser:\n', 'def _slice_example(chunk, s1, s2, want_lines=None):\n    exec_source_lines, source_lines, ps1_to_directive, lineno = chunk\n    exec_lines = exec_source_lines[s1:s2]\n    orig_lines = source_lines[s1:s2]\n    directives = ps1_to_directive.get(s1, None)\n    example = doctest_part.DoctestPart(exec_lines,\n                                       want_lines=want_lines,\n                                       orig_lines=orig_lines,\n                                       line_offset=lineno + s1 + 1,\n                                       directives=directives)\n    return example\n\n\nclass DoctestParser:\n'), ('xdoctest/parser.py', 'example = slice_example(s1, s2)\n', 'example = _slice_example(chunk, s1, s2)\n', 3), ('xdoctest/parser.py', 'example = slice_example(s1, s2, want_lines)\n', 'example = _slice_example(chunk, s1, s2, want_lines)\n')),
     fire('directive-failure-recorded-without-line', 'C08.R9', (DE, "                    self.failed_tb_lineno = 1  # is this the directive line?\n", "                    pass\n")),
     fire('directive-failure-on-line-zero', 'C08.R9', (DE, "                    self.failed_tb_lineno = 1  # is this the directive line?\n", "                    self.failed_tb_lineno = 0\n")),
     fire('google-blocks-split-with-splitlines', 'C08.R8', ('xdoctest/docstr/docscrape_google.py', "    docstr = textwrap.dedent(docstr)\n    docstr_lines = docstr.split('\\n')\n", "    docstr = textwrap.dedent(docstr)\n    docstr_lines = docstr.splitlines()\n")),
